@@ -136,6 +136,7 @@ fn run_check(id: &str, tier: Tier) -> i32 {
         "C07" => {
             let mut r = Report::new("C07", tier, "exploration");
             r.parts.push(c07::part_parse(tier));
+            r.parts.push(c19::part_c07_meaning(tier));
             finish(r)
         }
         "C08" => {
